@@ -230,6 +230,8 @@ def run(ctx):
             continue
         reported.add(key)
         simkey = c["sim"] if c["form"] != "extra" else "extra"
+        if c["kind"] == "iter":
+            simkey = "history|" + c["sim"]
         ctx.violation(key, "%s Result(%r) (%s form, %s): %s" % (c["sim"], c["name"], c["form"], c["kind"], c["detail"][:300]),
                       {"replay_py": REPLAY % dict(simkey=simkey, seed=c.get("seed", ctx.seed), name=c["name"]), "impl_observation": c["detail"]}, found_input=True)
     for c in model_bad[:10]:
